@@ -4,7 +4,8 @@
    reference sender and the correspondence of this model with the implementation (tools/props/c02.py); the packet-number
    part has its own theorems (C16), the key schedule too (C15). *)
 From Coq Require Import ZArith List Bool.
-Require Import PyLib SuiteTypes Crypto KeySchedule QuicKeys QuicSession QuicBuildP QuicEpochP.
+From Coq Require Import Permutation.
+Require Import PyLib SuiteTypes Crypto KeySchedule QuicKeys QuicTls QuicSession QuicBuildP QuicEpochP QuicCryptoP.
 Import ListNotations.
 Open Scope Z_scope.
 
@@ -31,17 +32,28 @@ Print Assumptions C02_one_output_per_input_datagram.
    to be RFC 9001 6.1).  As long as each direction's generation grows by at most one from one captured 1-RTT packet to the next, the
    session selects exactly the sender's generation for every packet, whoever initiates the updates and however the directions interleave *)
 Theorem C02_key_phase_client : forall C h kl G, (forall n, key_update C (G n) h kl = Ok (G (S n))) ->
-  forall s gc gs g', Inv h kl G s gc gs -> (g' = gc \/ g' = S gc) ->
-  exists s', check_key_epoch C s (Z.of_nat g' mod 2) false = Ok s' /\ Inv h kl G s' g' gs /\
+  forall s gc gs g', QuicEpochP.Inv h kl G s gc gs -> (g' = gc \/ g' = S gc) ->
+  exists s', check_key_epoch C s (Z.of_nat g' mod 2) false = Ok s' /\ QuicEpochP.Inv h kl G s' g' gs /\
              exists gens, qs_app s' = Some gens /\ nth_error gens (Z.to_nat (qs_epoch_client s')) = Some (G g').
 Proof. exact client_packet. Qed.
 Theorem C02_key_phase_server : forall C h kl G, (forall n, key_update C (G n) h kl = Ok (G (S n))) ->
-  forall s gc gs g', Inv h kl G s gc gs -> (g' = gs \/ g' = S gs) ->
-  exists s', check_key_epoch C s (Z.of_nat g' mod 2) true = Ok s' /\ Inv h kl G s' gc g' /\
+  forall s gc gs g', QuicEpochP.Inv h kl G s gc gs -> (g' = gs \/ g' = S gs) ->
+  exists s', check_key_epoch C s (Z.of_nat g' mod 2) true = Ok s' /\ QuicEpochP.Inv h kl G s' gc g' /\
              exists gens, qs_app s' = Some gens /\ nth_error gens (Z.to_nat (qs_epoch_server s')) = Some (G g').
 Proof. exact server_packet. Qed.
 Print Assumptions C02_key_phase_client.
 Print Assumptions C02_key_phase_server.
+
+(* CRYPTO-frame ordering: a handshake flight cut into non-empty CRYPTO frames at any points (ds = the pieces in stream order), the
+   frames captured in ANY order (any permutation), with any distinct object identities: after the last one the reassembly buffer of
+   the stream holds exactly the flight and nothing is left waiting.  feed is the reassembly step of QuicTlsSession.update_session
+   (sort by offset; consume every frame that continues the stream), after which handle_buffer reads the buffer. *)
+Theorem C02_crypto_frames_any_order : forall ds, Forall (fun d => d <> []) ds -> forall ident, (forall i j : nat, ident i = ident j -> i = j) ->
+  forall order, Permutation order (seq 0 (length ds)) ->
+  let s := fold_left (fun s j => feed s (fr ds ident j)) order cs0 in
+  cs_buffer s = concat ds /\ cs_frames s = [] /\ cs_offset s = len (concat ds).
+Proof. exact any_order. Qed.
+Print Assumptions C02_crypto_frames_any_order.
 
 (* non-vacuity: two datagrams at different times, the first with a CRYPTO frame only, the second with two STREAM frames *)
 Example C02_example :
